@@ -136,6 +136,15 @@ def c11():
     cases.append(case("finding-forward", files, [
         (0, "c", "Later().\n", 0, 8, ["BProc", "fb"], {"forward", "dot", "dangling"}, "after the call of a method declared further down"),
     ]))
+    G = "class aG\nfunc Get return aX\nendfunc\n"
+    A = "class aA(aG)\n\nproc First\n   var v : aD\n   v.Get().\nendproc\n\nfunc Get return aY override\nendfunc\n"
+    D = "class aD(aA)\n"
+    X = "class aX\nfx : int4\n"
+    Y = "class aY\nfy : int4\n"
+    files = [("aA", A), ("aG", G), ("aD", D), ("aX", X), ("aY", Y)]
+    cases.append(case("finding-forward-through-descendant", files, [
+        (0, "c", "v.Get().\n", 0, 8, ["fy"], {"forward", "dot", "dangling"}, "after the call of an override declared further down, reached through a descendant"),
+    ]))
     A = ("class aA\n\nproc First\n   var v : aB\n   v.\n   if v = v\n   endif\n   \nendproc\n")
     files = [("aA", A), ("aB", B)]
     cases.append(case("edge-after-dangling", files, [
